@@ -26,6 +26,14 @@ def run_obj(cls, precision, t, d, split=0):
     o = getattr(scared, cls)(precision=precision)
     if split and 0 < split < len(t):
         o.update(t[:-split], d[:-split])
+        # a batch the object refuses (another trace length) between two accepted ones is not part of "all processed traces"
+        try:
+            o.update(np.concatenate([t[-split:], t[-split:, :1]], axis=1), d[-split:])
+            raise AssertionError('harness: a batch with another trace length was accepted')
+        except AssertionError:
+            raise
+        except Exception:       # noqa - the refusal itself
+            pass
         o.update(t[-split:], d[-split:])
     else:
         o.update(t, d)
@@ -97,6 +105,12 @@ def run(chk):
         for prec in ('float32', 'float64'):
             got = run_obj('DPADistinguisher', prec, t, d, split=(i // 2) % 3)
             check_entry(chk, 'difference of class means', 'DPADistinguisher', prec, got[0, 0], want, mag, {'ps': ps, 'trace_dtype': dt, 'key': i})
+        if i % 61 == 0 and want is not None:
+            # the same observations presented K times (more than 2^17 traces): every class mean is unchanged, so is their difference
+            K = 140000 // len(ps) + 1
+            for prec in ('float32', 'float64'):
+                got = run_obj('DPADistinguisher', prec, np.tile(t, (K, 1)), np.tile(d, (K, 1)))
+                check_entry(chk, f'difference of class means ({K * len(ps)} traces)', 'DPADistinguisher', prec, got[0, 0], want, mag, {'ps': ps, 'trace_dtype': dt, 'repeated': K, 'key': ('rep', i)})
         if i % 397 == 0:
             chk.sample({'observations': ps, 'dom_certificate_sum1_n1_sum0_n0': e['cert']})
         chk.traces_validated += 1
@@ -170,8 +184,8 @@ def replay(chk, path):
     cls, prec = rp['cls'], rp['precision']
     if 'ps' in rp:
         ps = rp['ps']
-        t = (np.array([[p[0]] for p in ps]) + rp.get('offset', 0)).astype(rp.get('trace_dtype', 'int16'))
-        d = np.array([[p[1]] for p in ps]).astype('uint8')
+        t = np.tile((np.array([[p[0]] for p in ps]) + rp.get('offset', 0)).astype(rp.get('trace_dtype', 'int16')), (rp.get('repeated', 1), 1))
+        d = np.tile(np.array([[p[1]] for p in ps]).astype('uint8'), (rp.get('repeated', 1), 1))
     else:
         c, rows = rp['case']['c'], rp['case']['rows']
         t = np.array([r['t'] for r in rows]).astype('int16')
